@@ -22,7 +22,7 @@ Times   == {"dec", "zero", "neg", "plus", "empty", "nondec", "overflow", "leadin
 Params  == {"known", "known-other-algo", "unknown", "zero", "empty", "nondec", "neg", "leadzero", "plus", "overflow"}
 Salts   == {"orig", "other", "truncated", "empty", "invalid-b64", "std-alphabet", "nopad", "with-space"}
 Digests == {"match", "other-pw", "truncated", "extended", "empty", "invalid-b64", "zeros", "swapped-with-salt",
-            "std-alphabet", "nopad"}
+            "std-alphabet", "nopad", "same-params-other-length"}   \* the last: the right password and salt, another tag length
 Shapes  == {"exact", "missing-digest", "missing-two", "extra-field", "no-newline", "crlf", "nul-before-newline",
             "leading-blank-line", "second-line-valid", "huge-aux", "huge-time", "only-newline", "empty-file", "binary-junk"}
 
@@ -45,7 +45,8 @@ TimeStrict(c) == c.time \in {"dec", "zero"} /\ c.shape # "huge-time"
 TimeLenient(c) == c.time \in {"dec", "zero", "neg", "plus"} /\ c.shape # "huge-time"
 ParamStrict(c) == c.param = "known" \/ (c.algo = "other-known" /\ c.param = "known-other-algo")
 ParamLenient(c) == c.param \in {"known", "leadzero"} \/ (c.algo = "other-known" /\ c.param = "known-other-algo")
-B64Strict(x)  == x \in {"orig", "other", "truncated", "match", "other-pw", "extended", "zeros", "swapped-with-salt"}
+B64Strict(x)  == x \in {"orig", "other", "truncated", "match", "other-pw", "extended", "zeros", "swapped-with-salt",
+                        "same-params-other-length"}
 \* spellings a lenient base64 reader may or may not accept; their *bytes* are the original ones
 B64Lenient(x) == B64Strict(x) \/ x \in {"nopad", "std-alphabet"}
 ShapeStrict(c) == c.shape \in {"exact", "huge-aux"}
